@@ -524,7 +524,16 @@ def repr_values(condition: Callable[..., bool], lambda_inspection: Optional[Cond
     reprs = None  # type: Optional[MutableMapping[str, Any]]
 
     if lambda_inspection is not None:
-        variable_lookup = collect_variable_lookup(condition=condition, resolved_kwargs=selected_kwargs)
+        # Only the arguments which the condition accepts are visible in the condition. The remaining arguments
+        # of the call must not shadow the variables of the closure and the globals used in the condition.
+        condition_parameters = inspect.signature(condition).parameters
+        condition_kwargs = {
+            name: value
+            for name, value in selected_kwargs.items()
+            if name in condition_parameters
+        }
+
+        variable_lookup = collect_variable_lookup(condition=condition, resolved_kwargs=condition_kwargs)
 
         recompute_visitor = icontract._recompute.Visitor(variable_lookup=variable_lookup)
 
